@@ -1042,8 +1042,10 @@ def run(ctx):
         "field ASSUMED behaviour of the numerical primitives: `sqrt_sq` (x ** 0.5 squares back to x when it returns) and `sqrt_pos` (the root of "
         "a `pos` entry is `pos`) for NumPy's `x ** 0.5`; `chol` (when LAPACK potrf returns L: L lower triangular, L L^H = the Hermitian completion "
         "of the lower triangle); `lu` (when scipy.linalg.lu(p_indices=True) returns (p, L, U): p a permutation, L unit lower, U upper, "
-        "L[p] U = A).  Proved for the driver's exact instance GDecomp.params (C11_contracts_instance); for NumPy / LAPACK / SciPy covered only "
-        "by this correspondence stream with tolerance 1e-9 (double) / 2e-4 (single) on well-conditioned generated inputs",
+        "L[p] U = A).  Proved for the driver's exact instance GDecomp.params (C11_contracts_instance) and EVALUATED at dense-fallback nodes by "
+        "C11_chol_dense_witness, C11_chol_kron_witness, C11_plu_dense_witness; that NumPy's / LAPACK's / SciPy's own `x ** 0.5`, potrf, "
+        "scipy.linalg.lu satisfy them is NOT proved: covered only by this correspondence stream with tolerance 1e-9 (double) / 2e-4 (single) "
+        "on well-conditioned generated inputs",
         "precondition `Op.CholPre pos A` (hypothesis `hpre` of C11_chol*): Diagonal / ScalarMul entries reached by the structural rules are `pos`, "
         "members of Kronecker / BlockDiag recursively, every dense-fallback node is C01-`Good` (wf, dupSlice = false, HermOK) and `HermOn`; "
         "positive definite FACTOR BY FACTOR — a positive-definite Kronecker product of two negative-definite factors is not covered "
